@@ -78,7 +78,7 @@ func mutationsOf(ti int, s string, alt, stride int, rng interface{ Intn(int) int
 		nh := []string{"g", " ", "\x00", "-", "Z"}[i%5]
 		out = append(out, mutation{Token: ti, Kind: "subst-nonhex", Pos: i, Ch: nh, Str: s[:i] + nh + s[i+1:]})
 
-		if s[i] >= 'a' && s[i] <= 'f' {
+		if s[i] >= 'a' && s[i] <= 'f' && i%stride == 0 { // same bytes, so a full (costly) validation: thinned like subst
 			out = append(out, mutation{Token: ti, Kind: "upper", Pos: i, Str: s[:i] + strings.ToUpper(s[i:i+1]) + s[i+1:]})
 		}
 
